@@ -193,9 +193,9 @@ func genComposed(t *rapid.T) UIn {
 		}
 		var forms []string
 		if seqFamily {
-			forms = []string{"tuple1", "list", "leaf", "tuple1", "list", "tuple2", "object", "map"}
+			forms = []string{"tuple1", "list", "tuple1", "list", "tuple1", "list", "leaf", "tuple2", "object"}
 		} else {
-			forms = []string{"object", "map", "leaf", "object", "map", "tuple1", "list"}
+			forms = []string{"object", "map", "object", "map", "object", "map", "leaf", "tuple1"}
 		}
 		return wrap(rapid.SampledFrom(forms).Draw(t, label+"form"), leaf)
 	}
@@ -365,6 +365,22 @@ func failureCause(in UIn, b built, i int, u cty.Type, v cty.Value, unsafe bool) 
 	if !mixture(in.Types) || !(in.Types[i].K == spec.KTuple || in.Types[i].K == spec.KObject) {
 		return ""
 	}
+	// a structural input of a mixture is converted in two steps (to the
+	// unification of the structural inputs alone, then on to the result): the
+	// set of unknown length may only appear in the intermediate value
+	if mid, midTy := intermediate(in, b, v, unsafe); midTy != cty.NilType {
+		// first step: input -> intermediate type
+		if cause.SetToListElemChange([]cty.Value{v}, &it, spec.FromCty(midTy)) {
+			return cause.UnknownSetToList
+		}
+		// second step: intermediate value -> result type
+		if mid != cty.NilVal {
+			mt := spec.FromCty(mid.Type())
+			if cause.SetToListElemChange([]cty.Value{mid}, &mt, spec.FromCty(u)) {
+				return cause.UnknownSetToList
+			}
+		}
+	}
 	var direct convert.Conversion
 	func() {
 		defer func() { recover() }()
@@ -382,6 +398,46 @@ func failureCause(in UIn, b built, i int, u cty.Type, v cty.Value, unsafe bool) 
 		return ""
 	}
 	return causeComposed
+}
+
+// intermediate recomputes the first step of a composed conversion: v
+// converted to the unification of the structural (tuple/object) inputs alone.
+// Classification only.
+func intermediate(in UIn, b built, v cty.Value, unsafe bool) (ret cty.Value, retTy cty.Type) {
+	ret, retTy = cty.NilVal, cty.NilType
+	defer func() {
+		if recover() != nil {
+			ret = cty.NilVal
+		}
+	}()
+	// unify.go forces the structural inputs into one collection type whose
+	// element type unifies all of their member types
+	var members []cty.Type
+	isTuple := false
+	for j, t := range in.Types {
+		switch t.K {
+		case spec.KTuple:
+			isTuple = true
+			members = append(members, b.types[j].TupleElementTypes()...)
+		case spec.KObject:
+			for _, at := range b.types[j].AttributeTypes() {
+				members = append(members, at)
+			}
+		}
+	}
+	r := unify(members, unsafe)
+	if r.pan != "" || r.ty == cty.NilType {
+		return
+	}
+	retTy = cty.Map(r.ty)
+	if isTuple {
+		retTy = cty.List(r.ty)
+	}
+	mid, err := convert.Convert(v, retTy)
+	if err != nil {
+		return
+	}
+	return mid, retTy
 }
 
 // checkApply applies every returned conversion to every value of its input
@@ -445,7 +501,7 @@ func init() {
 	facet.Register(facet.F[UIn]{
 		Prop: "C09", Name: "nopanic",
 		Rule:  ntRule + "; capsule types and placeholders included; Unify, UnifyUnsafe and every returned conversion (applied to 3 values per input type) run under recover",
-		Quick: 40000, Thorough: 300000,
+		Quick: 80000, Thorough: 180000,
 		Gen: func(t *rapid.T) UIn {
 			if rapid.IntRange(0, 3).Draw(t, "composed") == 0 {
 				return genComposed(t)
@@ -485,7 +541,7 @@ func init() {
 	facet.Register(facet.F[UIn]{
 		Prop: "C09", Name: "apply/type",
 		Rule:  ntRule + "; both modes; every conversion (identity for a nil slot) applied to 3 values of exactly its input type (known with nested nulls/unknowns, null, unknown, empty collections) must yield a value whose type equals the unified type (conforms, when it has placeholders)",
-		Quick: 40000, Thorough: 300000,
+		Quick: 80000, Thorough: 180000,
 		Gen: genMixed,
 		Check: func(c *facet.Ctx, in UIn) error {
 			b := build(in)
@@ -515,7 +571,7 @@ func init() {
 	facet.Register(facet.F[UIn]{
 		Prop: "C09", Name: "apply/safe-no-error",
 		Rule:  "placeholder-free input types; " + ntRule + "; safe mode only: no returned conversion may fail on any value of its input type, and for every non-nil slot GetConversion(input, result) must be offered (safe unification never relies on an unsafe conversion)",
-		Quick: 40000, Thorough: 300000,
+		Quick: 80000, Thorough: 180000,
 		Gen: genMixedFree,
 		Check: func(c *facet.Ctx, in UIn) error {
 			b := build(in)
@@ -563,7 +619,7 @@ func init() {
 	facet.Register(facet.F[UIn]{
 		Prop: "C09", Name: "nil-iff-equal",
 		Rule:  "placeholder-free input types; " + ntRule + "; both modes: slot i is nil exactly when input i equals the unified type",
-		Quick: 40000, Thorough: 300000,
+		Quick: 80000, Thorough: 180000,
 		Gen: genMixedFree,
 		Check: func(c *facet.Ctx, in UIn) error {
 			b := build(in)
@@ -605,7 +661,7 @@ func init() {
 	facet.Register(facet.F[UIn]{
 		Prop: "C09", Name: "same-types",
 		Rule:  "1..4 separately rebuilt copies of one generated type (depth <= 3, placeholders allowed, attribute order permuted); non-trivial when the type is compound; both modes: the result is that type and every slot is nil",
-		Quick: 30000, Thorough: 200000,
+		Quick: 60000, Thorough: 200000,
 		Gen: func(t *rapid.T) UIn {
 			base := gen.Type(gen.TypeOpts{Depth: 3, Dynamic: true}).Draw(t, "base")
 			n := rapid.SampledFrom([]int{2, 3, 1, 4}).Draw(t, "n")
@@ -656,7 +712,7 @@ func init() {
 	facet.Register(facet.F[UIn]{
 		Prop: "C09", Name: "safe-implies-unsafe",
 		Rule:  "placeholder-free input types; non-trivial when >= 2 distinct types and safe unification succeeds; then unsafe unification must succeed too",
-		Quick: 40000, Thorough: 300000,
+		Quick: 80000, Thorough: 180000,
 		Gen: genMixedFree,
 		Check: func(c *facet.Ctx, in UIn) error {
 			b := build(in)
@@ -702,7 +758,7 @@ func init() {
 	facet.Register(facet.F[UIn]{
 		Prop: "C09", Name: "composed",
 		Rule:  "tuple+list and object+map mixtures whose members are related through the chain number/bool -> string and structural -> collection (so that unify.go composes a structural->collection and a collection->collection conversion); non-trivial when unification succeeds with a non-nil conversion; both modes: applied conversions yield the unified type, and in safe mode on placeholder-free inputs never fail",
-		Quick: 40000, Thorough: 300000,
+		Quick: 80000, Thorough: 180000,
 		Gen: genComposed,
 		Check: func(c *facet.Ctx, in UIn) error {
 			b := build(in)
